@@ -14,7 +14,7 @@ import (
 func init() { register("C13", runC13) }
 
 var c13Scripts = map[string][]string{
-	"ascii":  {"returns the total", "note: x > 0", "simple", "* fast bullet", "*important* flag", "1. numbered", "a - b -- c"},
+	"ascii":  {"returns the total", "note: x > 0", "simple", "* fast bullet", "*important* flag", "1. numbered", "a - b -- c", "50% of the base rate", "format is %d items, 100%s"},
 	"two":    {"Größe des Feldes", "привет мир", "café déjà vu", "αβγ δ"},
 	"three":  {"返回总数", "合計を返す", "한국어 설명"},
 	"astral": {"emoji 😀 ok", "𝄞 clef", "🚀🚀"},
@@ -107,6 +107,17 @@ func runC13(res *lib.Result, tier string, seed int64, args []string) error {
 		var decls []decl
 		add := func(kind int) {
 			name := fmt.Sprintf("v%d", len(decls)+1)
+			if (kind == 0 || kind == 1) && r.Chance(1, 4) {
+				// a user variable named like a built-in function: its own declaration and comment are what hover shows
+				cand := []string{"next", "type", "error", "select", "assert", "pairs"}[r.Intn(6)]
+				taken := false
+				for _, e := range decls {
+					taken = taken || e.name == cand
+				}
+				if !taken {
+					name = cand
+				}
+			}
 			// kind 6: an alias of an earlier local value, with a comment of its own (which is its documentation, not
 			// the comment of the variable it is initialised with)
 			aliasOf := ""
